@@ -6,6 +6,7 @@ from sim import gen, harness, history, world
 from sim.core import substream
 
 PROP = 'C04'
+TECHNIQUE = 'deterministic simulation with fault injection: enumeration of stored-object damage (flip/truncate/extend/swap/replay/delete) between commands; restore must raise or be exact'
 LEVEL = 'fault_enumeration'
 RULE = ('one case = a repository produced by the real snapshot command (encrypted with either cipher or unencrypted, 1..3 snapshots by 1..2 '
         'users over overlapping file sets) and, for EVERY stored chunk and snapshot object, the damage families: bit flip (offsets 0, nonce '
